@@ -103,10 +103,29 @@ Section Values.
         assert (m' = (k, v0, esc)).
         { apply (vkey_unique _ m' (k, v0, esc) (vdedupe_NoDup raw) Hin' Hin).
           destruct m' as [[k2 v2] e2]. cbn in Hm'. inversion Hm'. reflexivity. }
-        subst m'. cbn in Hm'. inversion Hm'; subst. exists v0, esc. split; [exact Hin|split; [exact Hc|reflexivity]].
+        subst m'. cbn in Hm'. injection Hm' as Hkind Hesc. rewrite <- Hkind, <- Hesc in Hc.
+        exists v0, esc. split; [exact Hin|split; [exact Hc|reflexivity]].
       + intros [v [esc [Hin [Hc ->]]]]. exists (k, v, esc). split; [reflexivity|].
         apply filter_In. split; [exact Hin|]. cbn [vkey fst]. apply mem_In. apply in_map_iff. exists (k, kd v). split; [reflexivity|].
         apply Hex. exists esc. split; [|exact Hc]. apply in_map_iff. now exists (k, v, esc).
+  Qed.
+
+  (* every member whose name does not start with an underscore is stored, with its value: as received when the bytes
+     are kept, re-encoded once otherwise; and every stored member was written *)
+  Theorem user_keys_preserved_v : forall e t d vb, accept_v e t = VStored d vb ->
+    exists raw tr, t = VObj raw tr /\
+      (forall k v esc, In (k, v, esc) (dedupe_k vkey raw) -> (forall r, k <> c_underscore :: r) ->
+         In (k, if vb then v else canon v) (dedupe_k fst (sd_ms d))) /\
+      (forall k v', In (k, v') (dedupe_k fst (sd_ms d)) ->
+         exists v esc, In (k, v, esc) raw /\ v' = (if vb then v else canon v)).
+  Proof.
+    intros e t d vb H. destruct (accept_v_members e t d vb H) as [raw [tr [-> Hms]]].
+    exists raw, tr. split; [reflexivity|split].
+    - intros k v esc Hin Hu. apply Hms. exists v, esc. split; [exact Hin|split; [|reflexivity]].
+      destruct (consumed_e e (k, kd v, esc)) eqn:E; [|reflexivity].
+      destruct (consumed_e_underscore e _ E) as [r Hr]. cbn [mkey fst] in Hr. now apply Hu in Hr.
+    - intros k v' Hin. apply Hms in Hin as [v [esc [Hin [_ ->]]]]. exists v, esc. split; [|reflexivity].
+      now apply (dedupe_k_In vkey raw).
   Qed.
 
   Lemma accept_v_keys_written : forall e t d vb, accept_v e t = VStored d vb ->
